@@ -97,6 +97,11 @@ fn hostile_value(col: usize, sel: u16, row: usize, nrows: usize, nl: u16, nr: u1
             nrows.to_string(),
             s("268435455"),
             s("268435456"),
+            // incomplete inline definitions of every length around small buffer sizes, multi-byte characters at every phase
+            format!("{}{},名詞", "a".repeat(sel as usize % 3), "あ".repeat(1 + (sel as usize / 3) % 30)),
+            format!("{}{},名詞,普通名詞,一般,*,*", "a".repeat(sel as usize % 3), "𠮷".repeat(1 + (sel as usize / 3) % 20)),
+            format!("0/{}{}", "a".repeat(sel as usize % 3), "漢".repeat(1 + (sel as usize / 3) % 30)),
+            format!("{},名詞,普通名詞,一般,*,*,*,{}", "あ".repeat(1 + sel as usize % 40), "ア".repeat(1 + sel as usize % 40)),
         ]),
         _ => pick(vec![s("*"), s(""), s("1/2"), s("x"), s("-1"), s("4294967295"), s("4294967296"), vec!["7"; 127].join("/"), vec!["7"; 128].join("/"), s("1//2")]),
     }
@@ -208,7 +213,8 @@ fn apply_mutations(dic: &DicModel, muts: &[Mut], target_user: bool) -> (String, 
                 last[0] = format!("\u{1}RAW{}", last[0]);
             }
             Mut::MatHeader(k) => {
-                let h = ["0 0", "-1 3", "3 -1", "0 5", "x y", "2", "", "2 2 2", "1 1", "2\t3", " 2 2 "];
+                let long = format!("{}{}", " ".repeat(*k as usize % 3), "あ".repeat(1 + (*k as usize / 3) % 30));
+                let h = ["0 0", "-1 3", "3 -1", "0 5", "x y", "2", "", "2 2 2", "1 1", "2\t3", " 2 2 ", long.as_str()];
                 if !mat_lines.is_empty() {
                     mat_lines[0] = h[ix(*k, h.len())].to_string();
                 }
@@ -228,6 +234,10 @@ fn apply_mutations(dic: &DicModel, muts: &[Mut], target_user: bool) -> (String, 
                     "32767 32767 1".to_string(),
                     format!("{} {} -32768", nl.saturating_sub(1), nr.saturating_sub(1)),
                     "   ".to_string(),
+                    // incomplete / non-numeric lines of every length around small buffer sizes, multi-byte characters at every phase
+                    format!("{}0 {}", " ".repeat(*k as usize % 3), "あ".repeat(1 + (*k as usize / 3) % 30)),
+                    format!("{} 0", "𠮷".repeat(1 + *k as usize % 20)),
+                    format!("0 0 {}", "漢".repeat(1 + *k as usize % 30)),
                 ];
                 let at = ix(*i, mat_lines.len() + 1).max(1).min(mat_lines.len());
                 mat_lines.insert(at, cand[ix(*k, cand.len())].clone());
@@ -294,6 +304,10 @@ impl Write for FailingSink {
 
 /// Ok(bytes) | Err(stage) ; panics are returned as Err(("panic:<stage>", msg))
 fn compile_system(matrix: &str, csv: &str) -> Result<Result<Vec<u8>, String>, (String, String)> {
+    compile_system_files(matrix, &[csv])
+}
+
+fn compile_system_files(matrix: &str, csvs: &[&str]) -> Result<Result<Vec<u8>, String>, (String, String)> {
     let mut b = DictBuilder::new_system();
     b.set_compile_time(fixed_time());
     macro_rules! stage {
@@ -306,7 +320,9 @@ fn compile_system(matrix: &str, csv: &str) -> Result<Result<Vec<u8>, String>, (S
         };
     }
     stage!("read_conn", b.read_conn(matrix.as_bytes()));
-    stage!("read_lexicon", b.read_lexicon(csv.as_bytes()));
+    for csv in csvs {
+        stage!("read_lexicon", b.read_lexicon(csv.as_bytes()));
+    }
     stage!("resolve", b.resolve());
     let mut out = Vec::new();
     stage!("compile", b.compile(&mut out));
@@ -553,6 +569,30 @@ impl Property for C06 {
                     Ok(Ok(b)) => b,
                 };
                 rep.class("system accepted");
+                // the same rows offered as two lexicon files (two read_lexicon calls on one builder) are the same dictionary
+                if !system_csv.contains('"') {
+                    let cuts: Vec<usize> = system_csv.match_indices('\n').map(|(i, _)| i + 1).filter(|i| *i < system_csv.len() && !system_csv[*i..].starts_with('\u{feff}')).collect(); // a byte order mark is only skipped at the start of a file
+                    if !cuts.is_empty() {
+                        let at = cuts[(system_csv.len() * 7 + matrix.len()) % cuts.len()];
+                        match compile_system_files(matrix, &[&system_csv[..at], &system_csv[at..]]) {
+                            Err((clause, msg)) => {
+                                rep.fail(&format!("two-files:{}", clause), format!("the lexicon given as two files (cut at byte {}): compiling panicked: {}", at, msg));
+                                return rep;
+                            }
+                            Ok(Err(e)) => {
+                                rep.fail("two-files-refused", format!("the lexicon compiles as one file; given as two files (cut at byte {}) it is refused: {}", at, e));
+                                return rep;
+                            }
+                            Ok(Ok(b2)) => {
+                                if b2 != sys {
+                                    rep.fail("two-files-differ", format!("the lexicon given as two files (cut at byte {}) compiles to {} bytes that differ from the {} bytes of the one-file build", at, b2.len(), sys.len()));
+                                    return rep;
+                                }
+                                rep.class("system accepted: two lexicon files give the same dictionary");
+                            }
+                        }
+                    }
+                }
                 let mut compiled = Compiled { system: sys, users: vec![] };
                 validate(&mut rep, &compiled, probes, ctx);
                 if rep.failed() {
@@ -661,6 +701,9 @@ impl Property for C06 {
                             rep.class("python-build: user dictionary identical to the library's");
                         }
                         (Ok(Err(_)), None) => rep.class("python-build: both refuse the user dictionary"),
+                        // build_user_dic loads the system dictionary under the package's default configuration, whose OOV
+                        // plugin needs 名詞,普通名詞,一般,*,*,* in it: a load failure there says nothing about the compiler
+                        (Ok(Ok(_)), None) if pu["error"].as_str().unwrap_or("").contains("system.dic") => rep.class("python-build: user build not judged (the system dictionary does not load under the package's default configuration)"),
                         (Ok(Ok(_)), None) => {
                             rep.fail("python-build-raises", format!("build_user_dic raised {} for texts the library compiles", pu["error"]));
                             return rep;
